@@ -13,7 +13,7 @@ from ..core import Prop, Result
 from ..simfs import SimFS, Policy
 
 READ_INPUTS = ["ok", "ok_wrapped", "ok_big", "nosections", "hdrerr", "reshape", "decode", "lidar", "empty",
-               "missing", "bom", "one_line"]
+               "missing", "bom", "one_line", "utf16", "latin1", "textcol", "hdrerr_late", "lidar_bom"]
 READ_KW = [
     {},
     {"engine": "normal"},
@@ -32,7 +32,7 @@ CSV_INPUTS = ["ok", "ok_nan", "no_curves", "bad_kw", "none_unit", "ragged"]
 CSV_KW = [{}, {"units_loc": "[]"}, {"units_loc": "()"}, {"mnemonics": False, "units": False},
           {"lineterminator": "\r\n"}, {"units_loc": None}]
 CALLS = ["read_str", "read_path", "write_path", "tocsv_path", "write_stream", "tocsv_stream",
-         "write_stringio", "tocsv_stringio"]
+         "write_stringio", "tocsv_stringio", "read_ctor", "read_func"]
 
 IN = "/simfs/c0/in.las"
 OUT = "/simfs/c0/out.las"
@@ -71,6 +71,19 @@ def read_input_bytes(kind, n, m):
         return b"\xef\xbb\xbf" + docmodel.join(docmodel.simple_doc(n, m, well_extra=(("COMP", "", "ÅCME ØL", "COMPANY"),))).encode("utf-8")
     if kind == "one_line":
         return b"~V only a title line and nothing else"
+    if kind == "utf16":
+        return docmodel.join(docmodel.simple_doc(n, m, well_extra=(("COMP", "", "ÅCME ØL", "COMPANY"),))).encode("utf-16")
+    if kind == "latin1":
+        return docmodel.join(docmodel.simple_doc(n, m, well_extra=(("COMP", "", "Société Générale ± µ", "COMPANY"),))).encode("latin-1")
+    if kind == "textcol":
+        return docmodel.join(docmodel.simple_doc(max(n, 2), m, cell=lambda i, j: "txt%d" % i if j == 1 else "%.2f" % (i + j))).encode("utf-8")
+    if kind == "hdrerr_late":
+        lines = docmodel.simple_doc(n, m)
+        k = [i for i, ln in enumerate(lines) if ln.startswith("~Parameter")][0]
+        lines.insert(k + 1, "no separators in this parameter line")
+        return docmodel.join(lines).encode("utf-8")
+    if kind == "lidar_bom":
+        return b"\xef\xbb\xbfLASF" + bytes(range(32, 120))
     raise ValueError(kind)
 
 
@@ -129,7 +142,7 @@ class C20(Prop):
         "SimFS keeps a reference to every object it hands out)",
         "SimRaw.close releases the handle even when the injected close error is raised (close(2) semantics)",
     ]
-    quick = {"runs": 4000, "wall": 60}
+    quick = {"runs": 3000, "wall": 60}
     thorough = {"runs": 40000, "wall": 900}
 
     def gen(self, st, tier, index):
@@ -173,10 +186,15 @@ class C20(Prop):
                 data = read_input_bytes(kind, sc["n"], sc["m"])
                 if data is not None:
                     fs.store(IN, data)
-                src = IN if call == "read_str" else pathlib.Path(IN)
+                src = pathlib.Path(IN) if call == "read_path" else IN
                 las = lasio.LASFile()
                 try:
-                    las.read(src, **sc["kw"])
+                    if call == "read_ctor":
+                        las = lasio.LASFile(src, **sc["kw"])
+                    elif call == "read_func":
+                        las = lasio.read(src, **sc["kw"])
+                    else:
+                        las.read(src, **sc["kw"])
                 except BaseException as e:      # noqa - kept alive on purpose
                     exc = e
             else:
